@@ -746,6 +746,9 @@ func features(ss []*Stmt, f map[string]bool, blockLbls map[int]bool, seenLoopLbl
 			}
 			features(s.Body, f, nb, seenLoopLbl)
 		case "if":
+			if n := len(s.Else); n > 0 && s.Else[n-1].K == "block" {
+				f["else-ends-with-block"] = true
+			}
 			features(s.Body, f, blockLbls, seenLoopLbl)
 			features(s.Else, f, blockLbls, seenLoopLbl)
 		case "while", "repeat", "loop":
@@ -920,7 +923,7 @@ func run(c *lib.Ctx, cs *caseT) {
 	}
 	select {
 	case res = <-done:
-	case <-time.After(3 * time.Second):
+	case <-time.After(10 * time.Second):
 		timedOut = true
 		cancel()
 		select {
@@ -996,7 +999,7 @@ func run(c *lib.Ctx, cs *caseT) {
 	}
 	// one root cause per signature: the first applicable shape in this order names the disagreement
 	fsig = "plain"
-	for _, f := range []string{"handler-assigns-user-variable", "reused-label", "nested-handlers", "exit-handler-leak", "leave-block", "declare-null"} {
+	for _, f := range []string{"handler-assigns-user-variable", "reused-label", "nested-handlers", "exit-handler-leak", "leave-block", "else-ends-with-block", "declare-null"} {
 		for _, g := range fs {
 			if g == f {
 				fsig = f
@@ -1023,7 +1026,7 @@ func run(c *lib.Ctx, cs *caseT) {
 	c.PredChecked()
 	switch {
 	case timedOut:
-		c.PredFail(id, "call-does-not-return/"+fsig, fmt.Sprintf("CALL does not return within 3 s; direct interpretation: %s; %s", cs.Ref, create), cs)
+		c.PredFail(id, "call-does-not-return/"+fsig, fmt.Sprintf("CALL does not return within 10 s; direct interpretation: %s; %s", cs.Ref, create), cs)
 	case status == "error" && obs == "RErr":
 		c.Count("agree-error")
 	case status == "error":
@@ -1141,6 +1144,12 @@ func main() {
 					{K: "if", E: bin("Eq", v(2), k(1)), Body: []*Stmt{{K: "iterate", L: 1}}},
 					{K: "set", ID: 1, E: bin("Add", v(1), k(1))}}}}},
 				{K: "setuser", ID: 0, E: v(1)}}}}},
+			// IF taken, ELSE branch ends with a block: the skipping Goto leaks a scope (Coq: else_block_prog)
+			&caseT{NUsers: 3, Params: []int64{0, 0}, Body: []*Stmt{{K: "block", Body: []*Stmt{
+				{K: "declare", ID: 1, Z: i64(1)},
+				{K: "block", Body: []*Stmt{{K: "declare", ID: 1, Z: i64(2)},
+					{K: "if", E: k(1), Body: []*Stmt{{K: "setuser", ID: 1, E: k(1)}}, Else: []*Stmt{{K: "block", Body: []*Stmt{{K: "setuser", ID: 1, E: k(2)}}}}}}},
+				{K: "setuser", ID: 0, E: v(1)}}}}},
 			// unhandled condition: CALL must fail
 			&caseT{NUsers: 3, Params: []int64{0, 0}, Body: []*Stmt{{K: "block", Body: []*Stmt{
 				{K: "setuser", ID: 0, E: k(1)}, {K: "raise"}, {K: "setuser", ID: 1, E: k(2)}}}}},
@@ -1153,7 +1162,15 @@ func main() {
 			run(c, cs)
 		}
 		for n := len(corpus); n < c.N; n++ {
-			cs, _ := gen(c.R.Fork())
+			// keep bodies short enough to finish well inside the time limit (each operation is a full engine query)
+			r := c.R.Fork()
+			var cs *caseT
+			for try := 0; try < 8; try++ {
+				cs, _ = gen(r)
+				if _, _, in := reference(cs); in.steps <= 220 {
+					break
+				}
+			}
 			run(c, cs)
 		}
 	})
